@@ -118,23 +118,23 @@ theorem grp_one' (x : Bytes) (h : WF1 x) : Grp 1 (x ++ []) := by
 
 /-- the reply-building tail of HRANDFIELD, for either value of WITHVALUES -/
 theorem hrandTail_rx (E : Res → Prop) (wv : Bool) (count : Int) (h : KMap Scalar) :
-    (if count ≥ h.length then
+    (if h.isEmpty then Prog.ret (Res.ok (b "*0\r\n"))
+      else if count ≥ h.length then
         Prog.ret (Res.okPerm (arrHdr (h.length * (if wv = true then 2 else 1)))
           (h.map fun (fv : Bytes × Scalar) => bulkStr fv.1 ++ (if wv = true then hashValReply fv.2 else [])))
-      else if h.isEmpty then Prog.panic "rand.Intn(0)"
       else Prog.ret (Res.okPick (arrHdr (count.natAbs * (if wv = true then 2 else 1))) count.natAbs (decide (count > 0))
           (h.map fun (fv : Bytes × Scalar) => bulkStr fv.1 ++ (if wv = true then hashValReply fv.2 else [])))).AllRet
       (Res.WFx E) := by
   cases wv
   · split
-    · exact rx_permMap _ 1 _ _ (fun x => grp_one' _ (wf1_bulk _)) _ rfl
+    · exact rx_ok _ _ wf_emptyArr
     · split
-      · trivial
+      · exact rx_permMap _ 1 _ _ (fun x => grp_one' _ (wf1_bulk _)) _ rfl
       · exact rx_pickMap _ 1 _ _ _ _ (fun x => grp_one' _ (wf1_bulk _)) _ rfl
   · split
-    · exact rx_permMap _ 2 _ _ (fun x => grp_two _ _ (wf1_bulk _) (wf1_hashVal _)) _ rfl
+    · exact rx_ok _ _ wf_emptyArr
     · split
-      · trivial
+      · exact rx_permMap _ 2 _ _ (fun x => grp_two _ _ (wf1_bulk _) (wf1_hashVal _)) _ rfl
       · exact rx_pickMap _ 2 _ _ _ _ (fun x => grp_two _ _ (wf1_bulk _) (wf1_hashVal _)) _ rfl
 
 theorem handleHRandField_wf (c : Ctx) (cmd : List Bytes) : (handleHRandField c cmd).AllRet Res.WFok := by
